@@ -8,7 +8,9 @@ from gen import ops as OPS
 from gen import schemas as G
 from props.c03 import doc_operation
 
-HDR_BASE = "Require Import OPC.gen.GenKinds OPC.Uni OPC.Names OPC.Codec OPC.CodecObs OPC.Types OPC.Endpoint OPC.EndpointObs.\nOpen Scope N_scope.\nOpen Scope Z_scope.\n"
+HDR_BASE = ("Require Import OPC.gen.GenKinds OPC.Uni OPC.Names OPC.Codec OPC.CodecObs OPC.Types OPC.Endpoint OPC.EndpointObs OPC.Parse.\nOpen Scope N_scope.\nOpen Scope Z_scope.\n"
+            "Definition rsource_eqb (a b : rsource) : bool := match a, b with SJson, SJson | SBytes, SBytes | SText, SText | SNone, SNone => true | _, _ => false end.\n"
+            "Definition rplan_eqb (a b : rplan) : bool := match a, b with RError, RError | RNoContent, RNoContent => true | RParsed x, RParsed y => rsource_eqb x y | _, _ => false end.\n")
 UNDOC = [508, 226, 299, 600]       # valid-but-undocumented, and codes outside http.HTTPStatus
 
 
@@ -109,6 +111,34 @@ def work(args):
                         except Exception:
                             pass
                         meta.append((module, ep, cep, st, content, ct, flag))
+            # document-level response plans: what response_from_data decided vs Parse.response_plan
+            from openapi_python_client.utils import get_content_type
+            plans = []
+            for module, tag, ep in epwork.endpoints_of(data, config):
+                found = doc_operation(doc, ep)
+                if not found:
+                    continue
+                for code, rd in (found[2].get("responses") or {}).items():
+                    try:
+                        st = int(code)
+                    except ValueError:
+                        continue
+                    rr = resolve_response(doc, rd)
+                    if rr is None:
+                        continue
+                    content = []
+                    for ct, mt in (rr.get("content") or {}).items():
+                        simp = get_content_type(ct, config)
+                        content.append((simp, "schema" in mt))
+                    got = next((r for r in ep.responses if int(r.status_code) == st), None)
+                    if got is None:
+                        obs = "RError"
+                    else:
+                        src = got.source["attribute"] if isinstance(got.source, dict) else got.source.attribute
+                        obs = "RNoContent" if src == "None" else "(RParsed %s)" % epwork.SRC[src]
+                    cl = "[" + "; ".join("(%s, %s)" % ("None" if c is None else "(Some %s)" % cstr(c), "true" if h else "false") for c, h in content) + "]"
+                    plans.append({"op": ep.name, "status": st, "content": [[c, h] for c, h in content], "obs": obs, "term": f"rplan_eqb (response_plan {cl}) {obs}"})
+            out["plans"] = plans
             res = impl.run_client(g.out, ops, timeout=900) if ops else []
             if isinstance(res, dict):
                 out["error"] = "runner: " + res.get("fatal", "")[:1500]
@@ -285,8 +315,20 @@ def run(run, tier, replay=None):
             else:
                 terms.append(f"parse_case O{di} T{di} {c['cep']} {flag} {c['h']} {c['obs']}")
             meta.append((di, c))
+    pterms, pmeta = [], []
+    for di, r in enumerate(results):
+        for pl in (r.get("plans") or []):
+            pterms.append(pl["term"]); pmeta.append((di, pl))
+            run.note_case({"doc": r["label"], "op": pl["op"], "status": pl["status"], "content": pl["content"]}, kind="response-plan")
+    pbad = run_cases(hdr, pterms, shard=400)
+    for i in pbad[:6]:
+        di, pl = pmeta[i]
+        run.violation("correspondence", {"label": results[di]["label"], "doc": results[di]["doc"], "op": pl["op"], "status": pl["status"], "content": pl["content"], "impl": pl["obs"],
+                                         "model": coq_eval(hdr, pl["term"].split("(response_plan", 1)[1].rsplit(")", 1)[0].join(["response_plan ", ""]))[-200:] if False else "see Parse.response_plan",
+                                         "note": "response_from_data's decision (parsed source / no content / rejected) differs from Parse.response_plan, for which 'first supported media type wins, empty content is no content' is proved"})
     bad = set(run_cases(hdr, terms, shard=250))
-    run.corr = {"cases": len(terms), "mismatches": len(bad), "what": "generated _parse_response(client, response) (parsed value / None / UnexpectedStatus / other exception) == Endpoint.parse on the endpoint abstracted from the implementation's parse"}
+    run.extra["response_plans_compared"] = len(pterms)
+    run.corr = {"cases": len(terms) + len(pterms), "mismatches": len(bad) + len(pbad), "what": "response_from_data decisions == Parse.response_plan; generated _parse_response(client, response) (parsed value / None / UnexpectedStatus / other exception) == Endpoint.parse on the endpoint abstracted from the implementation's parse"}
     for i in sorted(bad)[:8]:
         di, c = meta[i]
         mv = coq_eval(hdr, f"parse O{di} T{di} 40 {c['cep']} {'true' if c['flag'] else 'false'} {c['h']}")
